@@ -245,6 +245,21 @@ Theorem C14_response_tamper_rejected_under_ideal_aead : forall (dec : osc_aead_d
 Proof. exact osc_response_tamper_rejected. Qed.
 Print Assumptions C14_response_tamper_rejected_under_ideal_aead.
 
+Theorem C14_response_accepted_content_under_ideal_aead :
+  forall (dec : osc_aead_dec) (K : bytes) (sent : bytes -> bytes -> bytes -> Prop),
+  (forall n a c p, dec K n a c = Some p -> sent n a c) ->
+  forall c tok req_piv n0 a0 c0 o m' pt0 code inner pl,
+  sc_rkey c = K ->
+  (forall n a ct, sent n a ct -> n = n0 /\ a = a0 /\ ct = c0) ->
+  dec K n0 a0 c0 = Some pt0 ->
+  osc_parse_plaintext pt0 = Some (code, inner, pl) ->
+  osc_unprotect_resp_gen dec c tok req_piv o = Some m' ->
+  exists piv,
+    m' = mkMsg (m_type o) code (m_mid o) (m_token o)
+           (osc_merge (osc_kept_outer (m_opts o)) (osc_fix_observe piv inner)) pl.
+Proof. exact osc_response_accepted_content. Qed.
+Print Assumptions C14_response_accepted_content_under_ideal_aead.
+
 (* non-vacuity: the ideal functionality "decrypt only the one emitted triple" meets the premise,
    and with it the genuine RFC 8613 C.4 request is accepted *)
 Theorem C14_ideal_aead_premise_satisfiable : forall k0 n0 a0 c0 p0 n a c p,
